@@ -30,9 +30,12 @@ from ..gen import c04_obj as OB
 PID = "C04"
 COQ_HEADER = ("From Coq Require Import List NArith ZArith Bool.\nImport ListNotations.\n"
               "From SK Require Import lib.Tok lib.LGraph model.C03_Model model.C04_Model model.C04_Reactor.\n")
-SHARD = 16
+SHARD = 24
 IMPL_TIMEOUT = 2400
 COQ_TIMEOUT = 1500
+# CPU budget of one impl(case) (oracle: x2; thorough tier: x4): the slowest legitimate case is usp#21 full ITS backwards (thorough only):
+# VF2 on the fully expanded substrate, 1.5-5 CPU-minutes per reactor run and two runs in graph_level; quick cases need < 20 s
+CASE_CPU_LIMIT = 400
 MAXR = 6                   # explicit-hydrogen re-matches of the identity shipped to the model
 MAX_RAW = 40               # raw matches shipped to the model's pruning (rule with at most MAX_RULE atoms)
 MAX_RULE = 16
